@@ -1370,8 +1370,8 @@ void mcount_exit_filter_record(struct mcount_thread_data *mtdp, struct mcount_re
 			for (i = 0, k = 0; i < mtdp->nr_events; i++) {
 				if (mtdp->event[i].idx == ASYNC_IDX)
 					flush = true;
-				/* mtdp->idx still counts the exiting function: keep outer ones only */
-				if (mtdp->event[i].idx < mtdp->idx - 1)
+				/* keep the events of the outer functions only */
+				if (mtdp->event[i].idx < rstack - mtdp->rstack)
 					k = i + 1;
 			}
 
